@@ -139,6 +139,10 @@ def handle : Handler
   | "accept-lookup" :: kind :: idx :: id :: s :: res => do
     let res ← parseRes res
     some (verdict (decide (AsOK (← kind.toNat?) (← idx.toNat?) (← id.toNat?) (← s.toNat?) res)) "bad-lookup")
+  | ["accept-lookup-virtual", id, _s, res] => do
+    -- `lookupID_virtual`: an id with the virtual flag never resolves to a physical register
+    let id ← id.toNat?
+    some (verdict (!idIsVirtual id || res == "nil") "bad-virtual-id-resolves-to-physical")
   | "accept-vas" :: id :: m :: res => do
     let s ← methodSpec m
     let res ← parseRes res
@@ -156,6 +160,6 @@ def handle : Handler
 
 def handlers : List (String × Handler) :=
   ["row", "pas", "vas", "coll", "collrun", "lookupid", "lookupphys", "id", "spec", "accept-reg", "accept-ident", "accept-as",
-   "accept-lookup", "accept-vas", "accept-fresh", "accept-class", "accept-vclass"].map (·, handle)
+   "accept-lookup", "accept-lookup-virtual", "accept-vas", "accept-fresh", "accept-class", "accept-vclass"].map (·, handle)
 
 end Avo.Drv.C20
